@@ -93,7 +93,47 @@ def designs(tier, rnd):
         keep = [d for d in out if d[0] == "unsupported"]
         rest = [d for d in out if d[0] != "unsupported"]
         out = keep + rnd.sample(rest, min(500, len(rest)))
+    out += [random_hier(rnd, leaves) for _ in range(150 if tier == "quick" else 6000)]
     return out
+
+
+def random_hier(rnd, leaves):
+    """a random hierarchy (depth 2-4, shared sub-modules, nets of width 1-2 at every level, whole-signal connections only - what flatten supports)"""
+    depth = rnd.randint(2, 4)
+    names = ["Top"] + [f"H{k}" for k in range(1, depth)]
+    mods, ports = {}, {}
+    for li in reversed(range(depth)):
+        name = names[li]
+        sigs = []
+        if li > 0:
+            for k in range(rnd.randint(1, 3)):
+                sigs.append(U.sig(f"p{k}", rnd.choice([1, 1, 2]), True))
+        else:
+            sigs.append(U.sig("io", 1, True))
+            sigs.append(U.sig("bus", 2, True))
+        for k in range(rnd.randint(1, 3)):
+            sigs.append(U.sig(rnd.choice(["n", "m", "x"]) + str(k), rnd.choice([1, 1, 2])))
+        ports[name] = [(x["n"], x["w"]) for x in sigs if x["port"]]
+
+        def pick(w):
+            c = [x["n"] for x in sigs if x["w"] == w]
+            if not c:
+                sigs.append(U.sig(f"w{w}_{len(sigs)}", w))
+                c = [sigs[-1]["n"]]
+            return Sig(rnd.choice(c))
+        insts = []
+        for k in range(rnd.randint(1, 3)):
+            below = names[li + 1:]
+            if below and rnd.random() < 0.7:
+                ref = rnd.choice(below)
+                insts.append(U.inst(rnd.choice(["x", "y", "u"]) + str(k), ref, [(pn, pick(pw)) for pn, pw in ports[ref]]))
+            else:
+                ref = rnd.choice(["L1", "L12", "Mos"])
+                insts.append(U.inst(rnd.choice(["l", "d"]) + str(k), ref, [(p["n"], pick(p["w"])) for p in leaves[ref]], k="ext"))
+        mods[name] = U.mod(sigs, insts, probes=False)
+    D = U.design({n: mods[n] for n in reversed(names)})
+    D["leaves"] = leaves
+    return ("random_hier", D)
 
 
 def run_case(args):
@@ -151,11 +191,11 @@ def run(tier, seed, replay_file=None):
             o.cover["adversarial_colon_name"] = o.cover.get("adversarial_colon_name", 0) + 1
         if any(x["n"] == "tl" for x in top["insts"]):
             feats.append("leaf_at_top")
-        if any(x["of"]["ref"] == "L12" and x["n"] == "l" for x in D["mods"]["Leafm"]["insts"]):
+        if any(x["of"]["ref"] == "L12" and x["n"] == "l" for x in D["mods"].get("Leafm", {"insts": []})["insts"]):
             feats.append("external_leaf_below_top")
         if not ok:
             o.violations.append(Violation(clause=clause.split(":")[0], case={"family": fam, "D": D}, features=feats, detail={"exc": evs[i]["exc"], "clause": clause}))
-    o.required_cover = ["fam_hier", "fam_unsupported", "flattened", "adversarial_colon_name"]
+    o.required_cover = ["fam_hier", "fam_unsupported", "fam_random_hier", "flattened", "adversarial_colon_name"]
     for i in rnd.sample(range(len(ds)), 2):
         o.samples.append({"top_instances": ds[i][1]["mods"]["Top"]["insts"], "flat_instances": list(evs[i]["paths"]), "verdict": verdicts[i]})
     return o
